@@ -71,7 +71,14 @@ package lock
 // Unlock: removes exactly the given id from the key's queue; an unknown key or id is an error
 // (a stale or foreign lock id never releases someone else's lock: see remove's contract).
 //@ func (*lock).Unlock(l, key, lockID) (err)
-//@   property C14
+//@   property C14 C28
 //@   modifies *
+//@   cover[C28:idle_key_state_can_be_released] err == nil && calls("Map.Delete") + calls("Map.CompareAndDelete") + calls("Map.LoadAndDelete") > old(calls("Map.Delete") + calls("Map.CompareAndDelete") + calls("Map.LoadAndDelete"))
 //@   ensures[removes_given_id] err == nil ==> calls("queue.remove") == old(calls("queue.remove")) + 1 && calledwith("queue.remove", 1, lockID) && lastretb("queue.remove")
 //@   ensures[not_found_is_error] calls("queue.remove") > old(calls("queue.remove")) && !lastretb("queue.remove") ==> err != nil
+
+// Property C28 (no per-key lock state is kept for an idle key). The queue of a key lives in the
+// sync.Map l.queues; the weakest statement any implementation of the property must satisfy is
+// that releasing a lock CAN release the key's queue: some return of Unlock follows a
+// Delete/CompareAndDelete on l.queues. (The exact condition -- delete exactly when the queue became
+// empty, without racing a concurrent enqueue -- depends on the design of the repair.)
